@@ -119,7 +119,40 @@ def rules(ctx, tier):
                   "%s can run during open" % e.describe(), site_where(e.site))
     r.need(4, "destructive effects reachable from open")
     out.append(r.finish())
+
+    r = Rule("R7", "one call, one record: a mutating entry point runs the logged apply step at most once per call - not in "
+                   "a loop, not twice in a row - so the operation is one log record and replay applies all of it or none",
+             "a range removal is split into batches, each its own log record: a crash between two batches leaves the "
+             "removal half done after reopen")
+    one_record_per_call(ctx, r)
+    r.need(3, "mutating entry points (commit, remove, remove_range)")
+    out.append(r.finish())
     return out
+
+
+def one_record_per_call(ctx, r):
+    from .c01 import mutating_roots
+    prog = ctx.prog
+    for root in mutating_roots(ctx):
+        V = ctx.flat(root, stop=tuple(ctx.apply_roots()))
+        steps = [s for s in V.sites(("call",)) if "INDEX_MUTATE" in sem_set(ctx.may.site_events(V.orig_site(s)))
+                 and not V.blocks[s.bb].get("cleanup")]
+        name = root.path.split("::")[-1]
+        if not steps:
+            r.bad("apply-step:%s" % name, root, "%s mutates the index but no apply step is visible in its view" % root.path)
+            continue
+        looped = [s for s in steps if any(s.bb in cfgutil.reach(V, t) for t in V.succs(s.bb))]
+        twice = [(a, b) for a in steps for b in steps if a.bb != b.bb and any(b.bb in cfgutil.reach(V, t) for t in V.succs(a.bb))]
+        if looped:
+            how = "in a loop at " + ", ".join(site_where(s) for s in looped)
+        elif twice:
+            how = "at %s and then at %s" % (site_where(twice[0][0]), site_where(twice[0][1]))
+        else:
+            how = ""
+        r.check(not looped and not twice, "one-record:%s" % name, root,
+                "%s runs the logged apply step once per call (%s)" % (root.path, ", ".join(site_where(s) for s in steps)),
+                "%s can run the logged apply step more than once in one call (%s): one API operation becomes several log "
+                "records" % (root.path, how), site_where((looped or [twice[0][0] if twice else steps[0]])[0]))
 
 
 def publish_body_contract(ctx, r, must):
